@@ -1,6 +1,7 @@
 import PvModel.Loop
 import PvModel.Pool
 import PvModel.Run
+import PvModel.Multi
 /-!
 # Py — the Python primitives that `tools/py2lean.py` translates source text *into*
 
@@ -192,3 +193,11 @@ def dictSet (d : List (String × β)) (k : String) (v : β) : List (String × β
   | [] => [(k, v)]
   | (k', v') :: rest => if k' = k then (k', v) :: rest else (k', v') :: dictSet rest k v
 end Py
+
+namespace Multi
+/-- `ModeSolver(s)` as an operation that can raise -/
+def parseMode (s : String) : Except Err Mode :=
+  match Mode.ofString s with
+  | some m => .ok m
+  | none => .error .valueError
+end Multi
